@@ -193,10 +193,12 @@ def run(ctx):
         jobs.append((rnd.choice(["buffered", "buffered", "map", "mmap"]), sname, rnd.choice(scheds), d, False,
                      rnd.choice(["index", "index", "open2", "index@chain"]), spec))
     negjobs = [("buffered", "S3a", s, d, True) for s in s3a]
+    negchain = [("buffered", "S3a", s, d, True, "index@chain") for s in s3a]
     try:
         with ProcessPoolExecutor(max_workers=16) as ex:
             results = list(ex.map(_job, jobs, chunksize=8))
             negres = list(ex.map(_job, negjobs, chunksize=8))
+            negres_chain = list(ex.map(_job, negchain, chunksize=8))
     finally:
         shutil.rmtree(d, ignore_errors=True)
     # the baton really controls shared descriptions: without the re-open some schedule must read a wrong line
@@ -205,6 +207,11 @@ def run(ctx):
                                                           "schedules_with_wrong_reads": wrong})
     if wrong == 0:
         raise tlc.MachineryError("forkbaton self-test: with re-opening disabled no schedule produced a wrong read")
+    wrong_chain = sum(1 for r in negres_chain if r["bad"])
+    ctx.extra["negative_controls"].append({"name": "real code with reopen_if_needed disabled, forked chain", "schedules": len(negres_chain),
+                                           "schedules_with_wrong_reads": wrong_chain})
+    if wrong_chain == 0:
+        raise tlc.MachineryError("forkbaton self-test (chain): with re-opening disabled no schedule produced a wrong read")
     ctx.exhaustive = not quick
     incomplete = 0
     for r in results:
